@@ -171,17 +171,20 @@ class Check:
 
     # ------------------------------------------------------------------ engine M
     def run_m(s, harness, expect_checks=(), expect_cover=(), allow_blocked=False, time_cap=None, max_paths=None, env=None,
-              diff_samples=3, bounds=None, workers=None, step_budget=None, allow_panic=False):
+              diff_samples=3, bounds=None, workers=None, step_budget=None, allow_panic=False, only=None):
+        """only: obligation ids that belong to this property (shared harnesses discharge obligations of several properties;
+        the others are judged by their own property's check); panics and hangs always count"""
         P = s.program()
         cfg = {'sample_inputs': True, 'env': env or {}}
         if step_budget:
             cfg['step_budget'] = step_budget
         t = time.time()
-        r = driver.explore(P, harness, cfg=cfg, time_cap=time_cap, max_paths=max_paths, workers=workers)
+        r = s.explore_cached(P, harness, cfg, time_cap, max_paths, workers)
         rep = {'harness': harness, 'engine': 'mirsym', 'paths': r.paths, 'outcomes': dict(r.outcomes), 'mir_statements': r.steps,
                'solver_queries': r.queries, 'solver_s': round(r.solver_s, 3), 'interp_s': round(r.interp_s, 3), 'wall_s': round(time.time() - t, 2),
                'obligations_discharged': dict((str(k), v) for k, v in r.checked.items()), 'vacuity_witnesses': sorted(r.covered),
-               'bounds': bounds or {}, 'truncated': r.truncated}
+               'bounds': bounds or {}, 'truncated': r.truncated,
+               'reused_result_of_identical_source_hash': bool(getattr(r, 'reused', False))}
         s.harness_reports.append(rep)
         s.functions.update(r.calls)
         s.natives.update(r.natives)
@@ -211,8 +214,41 @@ class Check:
         if diff_samples and not r.unsupported:
             s.differential(P, harness, r, diff_samples, env)
         # violations: one per (check id), natively replayed
-        s.judge(harness, r.violations, 'mirsym', allow_panic)
-        s.judge_known(harness, r.known_hits, 'mirsym')
+        mine = (lambda v: only is None or v['check'] in only or v.get('kind') in ('panic', 'hang'))
+        s.judge(harness, [v for v in r.violations if mine(v)], 'mirsym', allow_panic)
+        s.judge_known(harness, [v for v in r.known_hits if mine(v)], 'mirsym')
+        return r
+
+    def explore_cached(s, P, harness, cfg, time_cap, max_paths, workers):
+        """Several properties share harness runs (e.g. C01/C02/C06/C07 all read the statechart step harnesses).  The exploration
+        result is a pure function of (MIR hash of /repo + harness sources, harness, configuration), so it is stored under that key and
+        reused by the other checks of the same source state; any edit to /repo or the harness changes the hash and forces a new run."""
+        import pickle
+        key = hashlib.sha256(json.dumps([P.mir_hash, harness, cfg.get('env'), cfg.get('step_budget'), time_cap, max_paths], sort_keys=True, default=str).encode()).hexdigest()[:20]
+        d = os.path.join(VERIF, '.cache', 'results')
+        os.makedirs(d, exist_ok=True)
+        path = os.path.join(d, '%s-%s.pkl' % (harness, key))
+        if os.path.exists(path) and os.environ.get('VERIF_NO_RESULT_CACHE') != '1':
+            try:
+                r = pickle.load(open(path, 'rb'))
+                r.reused = True
+                return r
+            except Exception:
+                pass
+        r = driver.explore(P, harness, cfg=cfg, time_cap=time_cap, max_paths=max_paths, workers=workers)
+        r.reused = False
+        if r.conclusive:
+            tmp = path + '.%d' % os.getpid()
+            pickle.dump(r, open(tmp, 'wb'))
+            os.replace(tmp, path)
+            # keep the cache small: drop results of older source states
+            for f in os.listdir(d):
+                fp = os.path.join(d, f)
+                if time.time() - os.path.getmtime(fp) > 6 * 3600:
+                    try:
+                        os.remove(fp)
+                    except OSError:
+                        pass
         return r
 
     def differential(s, P, harness, r, n, env):
